@@ -49,6 +49,7 @@ type OpenCall struct {
 	ReleaseOrd int      `json:"release_ord"` // global ordinal of the release, -1 if never released
 	Err        string   `json:"err,omitempty"`
 	Stream     int      `json:"stream"` // index into Streams, -1 if none
+	Phase      int      `json:"phase,omitempty"` // harness-defined phase (e.g. an earlier selection through the same querier)
 
 	key int // deterministic order key: position in the inventory, then open index
 }
@@ -177,6 +178,7 @@ type Daemon struct {
 
 	opensByID    map[string]int
 	wakes        []time.Time
+	phase        int
 	cancelAt     int // -1 = never
 	cancelSeen   bool
 	FaultsFired  map[string]int
@@ -326,7 +328,7 @@ func (d *Daemon) ContainerLogs(_ context.Context, id string, o apicontainer.Logs
 	// advances the event counter (all arrivals of a batch precede its first
 	// release, so the counter is the same at every quiescence point).
 	d.seq++
-	call := &OpenCall{ID: id, OpenIdx: openIdx, Opts: opts, ReleaseOrd: -1, Stream: -1, key: d.worldIndex(id)*1000 + openIdx}
+	call := &OpenCall{ID: id, OpenIdx: openIdx, Opts: opts, ReleaseOrd: -1, Stream: -1, Phase: d.phase, key: d.worldIndex(id)*1000 + openIdx}
 	d.opens = append(d.opens, call)
 	g := &gate{ch: make(chan struct{}), call: call}
 	d.parked = append(d.parked, g)
@@ -428,6 +430,13 @@ func (d *Daemon) worldIndex(id string) int {
 		}
 	}
 	return len(d.world.Containers)
+}
+
+// SetPhase labels the ContainerLogs calls that follow.
+func (d *Daemon) SetPhase(n int) {
+	d.mu.Lock()
+	d.phase = n
+	d.mu.Unlock()
 }
 
 // Parked returns the currently parked calls in inventory order (never in
